@@ -194,11 +194,11 @@ def gen_ops(rng, tier):
             if not itv_ok(c):
                 continue
             for later in (0, 1):
-                if later and not any(c):
-                    continue                 # identical values: the instance cannot be later
+                if later and not any(c) and c[:4] != (0, 0, 0, 0):
+                    continue                 # identical values: the instance cannot be later (sub-second: see the impl)
                 for ab in (0, 1):
                     yield ("fmt", "dfh-dt", loc) + c + (later, 0, ab)
-                    if c[4:] == (0, 0, 0):
+                    if c[4:] == (0, 0, 0) and (any(c) or not later):
                         yield ("fmt", "dfh-date", loc) + c + (later, 0, ab)
                     if c[:4] == (0, 0, 0, 0):
                         yield ("fmt", "dfh-time", loc) + c + (later, 0, ab)
@@ -429,6 +429,8 @@ def impl(op, backend):
             hq = zlib.crc32(("us" + repr(op)).encode())
             ua = (0, 0, 100000, 250000, 1)[hq % 5]
             ub = ua + (0, 1, 650000, 999999 - ua, 400000)[(hq >> 4) % 5]
+            if inv and not any(c) and ub == ua:
+                ub = ua + (1, 500000)[(hq >> 8) & 1]     # a sub-second difference: the instance is later by less than a second
             if how == "dfh-dt":
                 a = _P["base"].add(microseconds=ua)
                 b = _P["base"].add(years=y, months=mo, weeks=w, days=d, hours=h, minutes=mi, seconds=sec, microseconds=ub)
